@@ -202,7 +202,8 @@ func RuneIndex(s string, off int) int {
 type CodeObs struct {
 	K      string  `json:"k"`              // ok | nocompile | eb | er | ec | neg | panic | other
 	Text   []int   `json:"text,omitempty"` // runes of the regexp text
-	RA, RB int     `json:"ra,omitempty"`
+	RA     int     `json:"ra,omitempty"`
+	RB     int     `json:"rb,omitempty"`
 	Groups [][]int `json:"groups,omitempty"`
 	Msg    string  `json:"msg,omitempty"`
 }
